@@ -80,6 +80,10 @@ Theorem C11_end_to_end_message_level_partial :
   q_expect q = true -> q_dest q = Some d -> route B d = Some j ->
   q_sig q = Some (show_list ts_in) -> q_args q = args ->
   constructible q -> n <= Calls.max_serial ->
+  (* the request does not exceed DBusMessage._maxMsgLen ([g_limit g]; Model/System.v decides it as
+     _marshal does: the MethodCallMessage constructor raises, callRemote returns defer.fail()) *)
+  (forall body, encode_body (g_fuel g) (q_sig q) (PTuple (q_args q)) (Some []) = Ok body ->
+                too_big (g_limit g) (g_fuel g) (call_msg q n body) = false) ->
   passed ts_in args ws_in (g_fuel g) ->
   DispatchSpec.distinct_interfaces (g_exports g j) -> DispatchSpec.builtin dc = false ->
   DispatchSpec.addressed (g_exports g j) dc = DispatchSpec.TMethod o im m ->
@@ -172,6 +176,8 @@ Example C11_hypotheses_inhabited :
     = PcCall x_q /\
   route B (unique_name 2) = Some 2 /\
   constructible x_q /\ n <= Calls.max_serial /\
+  (forall body, encode_body (g_fuel x_cfg) (q_sig x_q) (PTuple (q_args x_q)) (Some []) = Ok body ->
+                too_big (g_limit x_cfg) (g_fuel x_cfg) (call_msg x_q n body) = false) /\
   passed [TInt32] [PInt 7] [WInt 7] (g_fuel x_cfg) /\
   DispatchSpec.distinct_interfaces (g_exports x_cfg 2) /\ DispatchSpec.builtin dc = false /\
   DispatchSpec.addressed (g_exports x_cfg 2) dc = DispatchSpec.TMethod [x_class] x_im x_m /\
@@ -246,6 +252,8 @@ Theorem C11_end_to_end_byte_level_partial :
   q_expect q = true -> q_dest q = Some d -> route B d = Some j ->
   q_sig q = Some (show_list ts_in) -> q_args q = args ->
   constructible q -> n <= Calls.max_serial ->
+  (forall body, encode_body (g_fuel g) (q_sig q) (PTuple (q_args q)) (Some []) = Ok body ->
+                too_big (g_limit g) (g_fuel g) (call_msg q n body) = false) ->
   passed ts_in args ws_in (g_fuel g) ->
   DispatchSpec.distinct_interfaces (g_exports g j) -> DispatchSpec.builtin dc = false ->
   DispatchSpec.addressed (g_exports g j) dc = DispatchSpec.TMethod o im m ->
@@ -368,6 +376,8 @@ Theorem C11_end_to_end_within_size_limit :
   q_expect q = true -> q_dest q = Some d -> route B d = Some j ->
   q_sig q = Some (show_list ts_in) -> q_args q = args ->
   constructible q -> n <= Calls.max_serial ->
+  (forall body, encode_body (g_fuel g) (q_sig q) (PTuple (q_args q)) (Some []) = Ok body ->
+                too_big (g_limit g) (g_fuel g) (call_msg q n body) = false) ->
   passed ts_in args ws_in (g_fuel g) ->
   DispatchSpec.distinct_interfaces (g_exports g j) -> DispatchSpec.builtin dc = false ->
   DispatchSpec.addressed (g_exports g j) dc = DispatchSpec.TMethod o im m ->
